@@ -66,7 +66,8 @@ func (g *Gen) choose(label string, ps []prod) *X {
 
 // RootTypes are the result types drawn for whole programs.
 var RootTypes = []*Ty{TInt, TInt, TF64, TBool, TBool, TBool, TStr, TInts, TAInt, Num(KInt8), Num(KUint16), Num(KUint), Num(KUint8), Num(KUint32), Num(KUint64),
-	Num(KInt16), Num(KInt32), Num(KInt64), Num(KF32), TStrs, TFloats, SeqOf(TStr, RepIface), SeqOf(TBool, RepIface), SeqOf(TF64, RepIface), TElem, TPElem, MapOf(TInt, RepIface), TMInt}
+	Num(KInt16), Num(KInt32), Num(KInt64), Num(KF32), TStrs, TFloats, SeqOf(TStr, RepIface), SeqOf(TBool, RepIface), SeqOf(TF64, RepIface), TElem, TPElem, MapOf(TInt, RepIface), TMInt,
+	SeqOf(TAInt, RepIface)}
 
 func (g *Gen) Root() *X {
 	ty := RootTypes[g.pick(len(RootTypes), "rootTy")]
@@ -1021,6 +1022,15 @@ func (g *Gen) seq(ty *Ty, d int) *X {
 			prod{4, func() *X {
 				n := g.pick(5, "arrn")
 				x := Arr(ty)
+				for i := 0; i < n; i++ {
+					x.A = append(x.A, g.Expr(e, d-1))
+				}
+				return x
+			}},
+			prod{2, func() *X {
+				// Tuple(...) is a fast call (func(...interface{}) interface{}) that returns its argument slice
+				n := 1 + g.pick(3, "tuplen")
+				x := Call("Tuple", ty)
 				for i := 0; i < n; i++ {
 					x.A = append(x.A, g.Expr(e, d-1))
 				}
